@@ -198,12 +198,16 @@ def check_l3(ctx) -> None:
     cls = ctx.repo.cls('GeophiresInputParameters')
     init = cls.methods['__init__']
     rel = init.module.rel
-    base_names = {'base_file'} | {norm(st.targets[0]) for st in ast.walk(init.node) if isinstance(st, ast.Assign)
-                                 and 'base_file' in norm(st.value)}
-    base = [c for c in calls_in(init.node) if isinstance(c.func, ast.Attribute) and c.func.attr == 'writelines'
-            and any(b in norm(c) for b in base_names)]
-    over = [c for c in calls_in(init.node) if isinstance(c.func, ast.Attribute) and c.func.attr == 'writelines'
-            and '_params' in norm(c)]
+    # on the comprehension form (a list built by loop-append reads as the comprehension it is); what each writelines() writes is read
+    # through the named intermediates: the base part comes from readlines() of the given file, the override part from self._params
+    import dataclasses
+    from gxstat.inline import enclosing_stmt, inline_sequential, loops_to_comprehensions
+    init = dataclasses.replace(init, node=loops_to_comprehensions(init.node))
+    wl = [(c, norm(inline_sequential(c.args[0], enclosing_stmt(c)))) for c in calls_in(init.node)
+          if isinstance(c.func, ast.Attribute) and c.func.attr == 'writelines' and c.args]
+    base = [c for c, v in wl if '.readlines()' in v or '.read()' in v or 'list(' in v and '_params' not in v]
+    over = [c for c, v in wl if '_params' in v]
+    over_txt = {id(c): v for c, v in wl}
     ctx.require(len(base) == 1 and len(over) == 1, 'GeophiresInputParameters.__init__: base/override writelines not found')
     ctx.check(base[0].lineno < over[0].lineno, 'L3', 'GeophiresInputParameters.__init__/base-before-overrides', f'{rel}:{over[0].lineno}',
               'override lines are written before the base-file lines: the base file would govern (last occurrence wins)')
@@ -212,10 +216,10 @@ def check_l3(ctx) -> None:
         ctx.check(norm(o.args[1]) == "'a'", 'L3', 'GeophiresInputParameters.__init__/append-mode', f'{rel}:{o.lineno}',
                   f'combined file opened with mode {norm(o.args[1])}: one part overwrites the other')
     # each override is one `name, value` line
-    gen = over[0].args[0]
-    ctx.check("', '.join" in norm(gen) and "+ '\\n'" in norm(gen) and '.items()' in norm(gen), 'L3',
+    gen_txt = over_txt[id(over[0])]
+    ctx.check("', '.join" in gen_txt and "+ '\\n'" in gen_txt and '.items()' in gen_txt, 'L3',
               'GeophiresInputParameters.__init__/override-line-format', f'{rel}:{over[0].lineno}',
-              f'override lines are not written as `name, value\\n` per item: `{norm(gen)[:80]}`')
+              f'override lines are not written as `name, value\\n` per item: `{gen_txt[:80]}`')
 
 
 def check_l4(ctx) -> None:
